@@ -15,8 +15,9 @@ def write(run, nviol, assumptions, known):
     cov = {
         "evaluations": run.evals,
         "distinct_nontrivial": len(run.nontrivial_sigs),
-        "rule": ("one evaluation = one simulated history (seeded random run, exhaustive-sweep history, crash-point-"
-                 "enumeration program or unbiasedness panel configuration) executed in its own forked pristine interpreter; "
+        "rule": ("one evaluation = one simulated history (seeded random run, exhaustive-sweep history, dispatch-path program, "
+                 "member of a differential-history pair, crash-point-enumeration program or unbiasedness panel "
+                 "configuration) executed in its own forked pristine interpreter; "
                  "distinct = distinct abstract schedule = hash of the sequence of (step kind, routine/operator kind, outcome "
                  "class, set of user-party/fault action kinds taken inside the call); non-trivial = the history contains at "
                  "least one cola call or construction AND at least one user-party action (draw/reseed/re-entrant call) or "
